@@ -90,8 +90,10 @@ def run_history(api, rnd, tid, lines, tracks, attached, edits, prefill, fresh=Fa
                             ev.append(dict({"op": "cell", "k": k, "note": cell_of(src)}, **seen(p)))
                             yield (k - 1) // tracks, (k - 1) % tracks, src
                             continue
-                        if i in inplace:     # "possible, but discouraged": change the working array's own note object
-                            n_ = new[(k - 1) // tracks][(k - 1) % tracks]
+                        n_ = new[(k - 1) // tracks][(k - 1) % tracks]
+                        # "possible, but discouraged": change the working array's own note object (not when an earlier edit of
+                        # this history put one note object into several cells: editing it would change them all)
+                        if i in inplace and sum(1 for ln_ in new for x_ in ln_ if x_ is n_) == 1:
                             n_.note, n_.vel, n_.module, n_.ctl, n_.val = api.NOTECMD(c[0]), c[1], c[2], c[3], c[4]
                             ev.append(dict({"op": "cell", "k": k, "note": c}, **seen(p)))
                             yield (k - 1) // tracks, (k - 1) % tracks, n_
